@@ -1,13 +1,203 @@
 /-
-  C16 — property theorems (only property theorems, witnesses and non-vacuity examples live here;
-  helper lemmas are in `FwdVerif/Lemmas/C16.lean`).
+  C16 — property theorems (only property theorems, full-strength statements kept visible as
+  `def …_full : Prop`, witnesses and non-vacuity examples live here; helper lemmas and the
+  hypothesis predicates `CanonKeys`, `NodupKeys`, `NoRename`, `ValidRule`, `valuesOf` are in
+  `FwdVerif/Lemmas/C16.lean`).
+
+  Byte strings used in the concrete examples:
+    "a" = [97]   "b" = [98]   "v" = [118]   ":" = 58   ";" = 59   "-" = 45   "*" = 42   "%" = 37
+    CR = 13   LF = 10   " " = 32
+    "X-Foo" = [88,45,70,111,111]      "x-foo" = [120,45,102,111,111]
+    "X-Bar" = [88,45,66,97,114]       "x-" = [120,45]
 -/
-import FwdVerif.Model.C16
+import FwdVerif.Lemmas.C16
 
 namespace FwdVerif
 namespace C16
 
 open Ascii
+
+/-! ## A. Every accepted rule is a legal header field -/
+
+/-- the parser only lets rules with a name in `[A-Za-z0-9-]+` through -/
+theorem c16_parse_valid {v : Bytes} {r : Rule} (h : parseRule v = some r) : ValidRule r :=
+  (parseRule_some h).2
+
+example : parseRule [45, 120, 45, 42] = some (.removePrefix [120, 45]) := by decide   -- "-x-*"
+
+/-- token name: non-empty and every byte an RFC 7230 `tchar` -/
+theorem c16_parse_name_token {v : Bytes} {r : Rule} (h : parseRule v = some r) :
+    r.name ≠ [] ∧ r.name.all isTokenByte = true :=
+  ⟨ne_nil_of_validName (parseRule_some h).2, all_token_of_validName (parseRule_some h).2⟩
+
+example : parseRule [88, 45, 70, 111, 111, 59] = some (.empty [88, 45, 70, 111, 111]) := by
+  decide                                                                            -- "X-Foo;"
+
+/-- full clause "value without CR/LF" — FALSE of the unchanged code (F9), see the witness -/
+def c16_parse_value_legal_full : Prop :=
+  ∀ v n val, parseRule v = some (.add n val) → (13 : UInt8) ∉ val ∧ (10 : UInt8) ∉ val
+
+/-- no LF in the value of an accepted add-rule, unconditionally -/
+theorem c16_parse_value_no_lf {v n val : Bytes} (h : parseRule v = some (.add n val)) :
+    (10 : UInt8) ∉ val :=
+  (parseRule_add h).2.2.2.2.1
+
+example : parseRule [97, 58, 32, 98, 10] = some (.add [97] [98]) := by decide        -- "a: b\n"
+
+/-- `a:b\r\n` is accepted with the value `b\r`: `(.*)` is greedy and takes the CR -/
+theorem c16_parse_value_cr_witness :
+    ∃ v n val, parseRule v = some (.add n val) ∧ (13 : UInt8) ∈ val :=
+  ⟨[97, 58, 98, 13, 10], [97], [98, 13], by decide, by decide⟩
+
+theorem c16_parse_value_legal_full_false : ¬ c16_parse_value_legal_full := by
+  intro h
+  exact (h [97, 58, 98, 13, 10] [97] [98, 13] (by decide)).1 (by decide)
+
+/-- the legality clause under the hypothesis that excludes the defect class: a rule string
+    without CR yields a value without CR and LF -/
+theorem c16_parse_value_no_crlf_partial {v n val : Bytes} (hcr : (13 : UInt8) ∉ v)
+    (h : parseRule v = some (.add n val)) : (13 : UInt8) ∉ val ∧ (10 : UInt8) ∉ val :=
+  ⟨fun hm => hcr ((parseRule_add h).2.2.2.2.2.2 _ hm), c16_parse_value_no_lf h⟩
+
+example : (13 : UInt8) ∉ [97, 58, 32, 98, 10] ∧
+    parseRule [97, 58, 32, 98, 10] = some (.add [97] [98]) := by decide
+
+/-! ## B. Print / parse round trip -/
+
+/-- full clause — FALSE of the unchanged code for add-rules whose value ends in `;` -/
+def c16_roundtrip_full : Prop :=
+  ∀ v r, parseRule v = some r → parseRule (printRule r) = some r
+
+/-- every accepted rule other than `name:value` prints back to exactly the accepted string -/
+theorem c16_print_exact_non_add {v : Bytes} {r : Rule} (h : parseRule v = some r)
+    (hr : ∀ n val, r ≠ .add n val) : printRule r = v :=
+  printRule_parseRaw (parseRule_some h).1 hr
+
+example : parseRule [37, 120, 45, 102, 111, 111] = some (.rename [120, 45, 102, 111, 111]) ∧
+    ∀ n val, Rule.rename [120, 45, 102, 111, 111] ≠ .add n val :=
+  ⟨by decide, fun _ _ h => Rule.noConfusion h⟩                                      -- "%x-foo"
+
+/-- round trip for every accepted rule except add-rules whose value ends in `;` (59) -/
+theorem c16_roundtrip_partial {v : Bytes} {r : Rule} (h : parseRule v = some r)
+    (hsemi : ∀ n val, r = .add n val → val.getLast? ≠ some 59) :
+    parseRule (printRule r) = some r := by
+  cases r with
+  | add n val => exact roundtrip_add h (hsemi n val rfl)
+  | remove n => rw [c16_print_exact_non_add h (fun _ _ e => Rule.noConfusion e)]; exact h
+  | removePrefix n => rw [c16_print_exact_non_add h (fun _ _ e => Rule.noConfusion e)]; exact h
+  | empty n => rw [c16_print_exact_non_add h (fun _ _ e => Rule.noConfusion e)]; exact h
+  | rename n => rw [c16_print_exact_non_add h (fun _ _ e => Rule.noConfusion e)]; exact h
+
+example : parseRule [97, 58, 32, 98, 13, 10] = some (.add [97] [98, 13]) ∧
+    ([98, 13] : Bytes).getLast? ≠ some 59 := by decide                             -- "a: b\r\n"
+
+/-- `a:b;\n` parses to add "a" "b;", which prints as `a:b;`, which is read as the set-empty
+    rule for the (invalid) name `a:b` and rejected -/
+theorem c16_roundtrip_witness :
+    ∃ v r, parseRule v = some r ∧ parseRule (printRule r) = none :=
+  ⟨[97, 58, 98, 59, 10], .add [97] [98, 59], by decide, by decide⟩
+
+theorem c16_roundtrip_full_false : ¬ c16_roundtrip_full := by
+  intro h
+  have := h [97, 58, 98, 59, 10] (.add [97] [98, 59]) (by decide)
+  exact absurd this (by decide)
+
+/-! ## C. `Apply` against the documented meaning on the case-insensitive field-line view -/
+
+/-- full clause — FALSE of the unchanged code (F9): `%name` breaks the canonical-key invariant
+    that `Del/Set/Add` rely on (and deletes the field when `name` is already canonical) -/
+def c16_apply_spec_full : Prop :=
+  ∀ rs h, (∀ r ∈ rs, ValidRule r) → CanonKeys h → NodupKeys h →
+    (fieldsOf (applyRules rs h)).Perm (specRules rs (fieldsOf h))
+
+/-- for rule lists without `%name`, on maps as `net/http` builds them (unique canonical keys),
+    the field lines after `Apply` are, as a multiset, what the documented meaning gives -/
+theorem c16_apply_spec_partial {rs : List Rule} {h : HMap} (hr : NoRename rs)
+    (hv : ∀ r ∈ rs, ValidRule r) (hc : CanonKeys h) (hn : NodupKeys h) :
+    (fieldsOf (applyRules rs h)).Perm (specRules rs (fieldsOf h)) :=
+  applyRules_spec hr hv hc hn
+
+-- "-x-*", "X-Bar:v", "x-foo;", "-a" on {"X-Foo": ["v","v"], "X-Bar": ["a"]}
+example :
+    let rs : List Rule := [.removePrefix [120, 45], .add [88, 45, 66, 97, 114] [118],
+      .empty [120, 45, 102, 111, 111], .remove [97]]
+    let h : HMap := [([88, 45, 70, 111, 111], [[118], [118]]), ([88, 45, 66, 97, 114], [[97]])]
+    NoRename rs ∧ (∀ r ∈ rs, ValidRule r) ∧ CanonKeys h ∧ NodupKeys h := by decide
+
+/-- `name:value` appends: the values under the canonical key are the old ones followed by the
+    new one (order preserved), for every map and name -/
+theorem c16_add_appends (h : HMap) (n v : Bytes) :
+    valuesOf (goAdd h n v) (canonicalKey n) = valuesOf h (canonicalKey n) ++ [v] := by
+  unfold valuesOf goAdd HMap.get
+  rw [lookup_put_self]
+  rfl
+
+example : valuesOf (goAdd [([88, 45, 70, 111, 111], [[97]])] [120, 45, 102, 111, 111] [118])
+    [88, 45, 70, 111, 111] = [[97], [118]] := by decide
+
+/-- … and leaves the values under every other raw key alone -/
+theorem c16_add_others_untouched (h : HMap) (n v : Bytes) {k : Bytes}
+    (hk : k ≠ canonicalKey n) : valuesOf (goAdd h n v) k = valuesOf h k := by
+  unfold valuesOf goAdd
+  rw [lookup_put_ne h _ hk]
+
+example : ([88, 45, 66, 97, 114] : Bytes) ≠ canonicalKey [120, 45, 102, 111, 111] := by decide
+
+/-- full clause for `%name` ("only changes the spelling, never adds, drops or alters values")
+    — FALSE of the unchanged code when `name` is already the canonical spelling -/
+def c16_rename_preserves_fields_full : Prop :=
+  ∀ h n, ValidRule (.rename n) → CanonKeys h → NodupKeys h →
+    (fieldsOf (renameCase h n)).Perm (fieldsOf h)
+
+/-- `%name` with a non-canonical spelling keeps the multiset of (folded name, value) lines.
+    (`ValidRule (.rename n)` is not needed for this direction and therefore not assumed.) -/
+theorem c16_rename_preserves_fields_partial {h : HMap} {n : Bytes}
+    (hne : canonicalKey n ≠ n) (hc : CanonKeys h) (hn : NodupKeys h) :
+    (fieldsOf (renameCase h n)).Perm (fieldsOf h) :=
+  fieldsOf_renameCase_perm hne hc hn
+
+-- "%x-foo" on {"X-Foo": ["v"], "X-Bar": ["a"]}; the field is present, so the rule does act
+example :
+    let h : HMap := [([88, 45, 70, 111, 111], [[118]]), ([88, 45, 66, 97, 114], [[97]])]
+    ValidRule (.rename [120, 45, 102, 111, 111]) ∧
+      canonicalKey [120, 45, 102, 111, 111] ≠ [120, 45, 102, 111, 111] ∧ CanonKeys h ∧
+      NodupKeys h ∧ renameCase h [120, 45, 102, 111, 111] ≠ h := by decide
+
+/-- `%X-Foo` on {"X-Foo": ["v"]} yields the empty map: the field is dropped -/
+theorem c16_rename_canonical_witness :
+    ValidRule (.rename [88, 45, 70, 111, 111]) ∧
+      CanonKeys [([88, 45, 70, 111, 111], [[118]])] ∧
+      NodupKeys [([88, 45, 70, 111, 111], [[118]])] ∧
+      renameCase [([88, 45, 70, 111, 111], [[118]])] [88, 45, 70, 111, 111] = [] ∧
+      ¬ (fieldsOf (renameCase [([88, 45, 70, 111, 111], [[118]])] [88, 45, 70, 111, 111])).Perm
+          (fieldsOf [([88, 45, 70, 111, 111], [[118]])]) := by decide
+
+theorem c16_rename_preserves_fields_full_false : ¬ c16_rename_preserves_fields_full := by
+  intro h
+  exact c16_rename_canonical_witness.2.2.2.2
+    (h _ _ c16_rename_canonical_witness.1 c16_rename_canonical_witness.2.1
+      c16_rename_canonical_witness.2.2.1)
+
+/-- `%x-foo` then `-x-foo` on {"X-Foo": ["v"]} leaves the line ("x-foo","v") in place although
+    the documented meaning removes it: `Del` looks for the canonical key only -/
+theorem c16_rule_after_rename_witness :
+    (∀ r ∈ [Rule.rename [120, 45, 102, 111, 111], Rule.remove [120, 45, 102, 111, 111]],
+        ValidRule r) ∧
+      CanonKeys [([88, 45, 70, 111, 111], [[118]])] ∧
+      NodupKeys [([88, 45, 70, 111, 111], [[118]])] ∧
+      fieldsOf (applyRules [.rename [120, 45, 102, 111, 111], .remove [120, 45, 102, 111, 111]]
+        [([88, 45, 70, 111, 111], [[118]])]) = [([120, 45, 102, 111, 111], [118])] ∧
+      specRules [.rename [120, 45, 102, 111, 111], .remove [120, 45, 102, 111, 111]]
+        (fieldsOf [([88, 45, 70, 111, 111], [[118]])]) = [] := by decide
+
+theorem c16_apply_spec_full_false : ¬ c16_apply_spec_full := by
+  intro h
+  obtain ⟨h1, h2, h3, h4, h5⟩ := c16_rule_after_rename_witness
+  have := h _ _ h1 h2 h3
+  rw [h4, h5] at this
+  exact absurd this.length_eq (by decide)
+
+/-! ## D. Dispatch by message kind -/
 
 /-- dispatch clause, stated outright: request rules touch non-CONNECT requests only, connect rules
     CONNECT requests only, response rules non-CONNECT responses only. -/
@@ -16,6 +206,9 @@ theorem c16_dispatch (l : RuleList) (m : Msg) :
       (l = .header ∧ m = .request) ∨ (l = .connectHeader ∧ m = .connectRequest) ∨
       (l = .responseHeader ∧ m = .response) := by
   cases l <;> cases m <;> simp [appliesTo]
+
+example : appliesTo .connectHeader .connectRequest = true ∧
+    appliesTo .header .connectRequest = false := by decide
 
 end C16
 end FwdVerif
